@@ -420,7 +420,14 @@ ItemIs(r, o) == \/ (o[1] = "none" /\ Has(r, "none"))
                 \/ (o[1] = "some" /\ EpIs(r, o[2]))
 TrSeriesNext == IsOp("series_next") /\ X!SNext /\ ItemIs(E.res, sout')
 TrSeriesNth  == IsOp("series_nth")  /\ X!SNth(E.n) /\ ItemIs(E.res, sout')
-SeriesNext == TrSeriesNew \/ TrSeriesNext \/ TrSeriesNth
+(* Iterator::last and Iterator::count of the series as it stands (on a copy: the register is unchanged): the last  *)
+(* of the items still to come, start + (Count - 1) * step, and their number                                         *)
+TrSeriesLast == IsOp("series_last") /\ UNCHANGED <<ser, sout>> /\
+      LET n == X!CountOf(ser) IN
+        IF ser.k >= n THEN Has(E.res, "none") /\ E.count = 0
+        ELSE /\ EpIs(E.res, X!Ep(ser.start.ts, M!DAdd(ser.start.v, M!DMulI(ser.step, B!FromInt(n - 1)))))
+             /\ E.count = n - ser.k
+SeriesNext == TrSeriesNew \/ TrSeriesNext \/ TrSeriesNth \/ TrSeriesLast
 
 (* Weekday machine: C16 (arithmetic modulo 7) *)
 WdIs(r, x) == Has(r, "v") /\ r.v = x
